@@ -8,6 +8,12 @@ LEVEL_TEXT = ("The obligation 'the block handed to memFree was wiped over its wh
               "exit path: success, each argument-error return, and allocation failure at any ordinal (nondeterministic under CBMC).  blob.c "
               "(blobCreate / blobClose) runs with its real body on top of these contracts.")
 GROUPS = [dict(g) for g in _c09.GROUPS]
+MW = ["src/core/mem.c", "src/core/util.c", "src/core/word.c", "src/core/u64.c", "src/core/u32.c", "src/core/u16.c"]
+for cnt in (1, 7, 8, 40, 64, 129):
+    GROUPS.append(G("memwipe.cnt%d" % cnt, "harness/C15/memwipe.c", "h_memwipe", MW, defs=["CNT=%d" % cnt], level="B",
+                    bound="count = %d octets, both word-aligned and odd-word starts; previous contents symbolic" % cnt,
+                    extra_units=[("src/core/mem.c", ["memWipe=memWipe_B"])], stubs=["stubs/memchr.c"], unwindset=["memchr.0:%d" % (cnt + 2)], unwind=cnt + 12, spec_unwind=cnt + 12, search=3000, split=True,
+                    timeout=900, fn=["memWipe"], note="the wipe contract the ghost allocator groups rely on: two instances of the real memWipe on the same buffer"))
 TRUSTED = list(_c09.TRUSTED)
 ASSUMPTIONS = ["copies of secrets on the C stack or in registers, and compiler dead-store elimination (volatile wipe), are outside the model"]
 NOT_COVERED = ["bign / bign96 / bake / BAUTH / bels / botp / bpki / brng high-level functions; rng.c; blobResize (realloc may release the old block unwiped)"]
